@@ -35,7 +35,8 @@ class P1(object):
         """Points a template would otherwise never produce: ends, simple fractions of the region, the origin."""
         lo, hi = self.lo, self.hi
         return rng.choice([lo, hi, 0.5 * (lo + hi), lo + (hi - lo) / 3.0, lo + 2.0 * (hi - lo) / 3.0, lo + (hi - lo) / 4.0,
-                           lo + (hi - lo) / 5.0, 0.0, hi * 0.5, hi / 3.0, 2.0 * hi / 3.0])
+                           lo + (hi - lo) / 5.0, 0.0, hi * 0.5, hi / 3.0, 2.0 * hi / 3.0,
+                           hi + 0.5 * (hi - lo), lo - 0.25 * (hi - lo), -0.1 * abs(hi)])   # the last three lie outside the region
 
 
 class PBox(object):
@@ -356,6 +357,8 @@ _fam("nohblackbox", ["nohblackboxeos.blackboxnoh.NohBlackBoxEos", "nohblackboxeo
 
 BB_SYMMETRY = {1: 0, 2: 1, 3: 2}
 
+_fam("probe_values", ["verif.probe.ProbeValues"], [PSet(dict(), P1(0., 1.), [1.0, 0.5]), PSet(dict(k=5), P1(0., 1.), [3.0]),
+                                                     PSet(dict(k=11), P1(0., 1.), [1e-3])], internal=True)
 _fam("probe", ["verif.probe.ProbeSolver"], [PSet(dict(b=2.0), P1(0., 1.), [1.0]), PSet(dict(a=0.5, b=-1.0), P1(0., 1.), [2.0])], internal=True)
 
 
